@@ -135,6 +135,13 @@ func runC16(w *world.World, c caseC16, rec *kit.Recorder) error {
 	if strings.Count(c.Denom, "/") >= 2 {
 		rec.NonTrivial(fmt.Sprintf("%s|%s|%s", c.Denom, c.SrcPort, c.SrcChannel))
 	}
+	portClass := "source port transfer"
+	if c.SrcPort != world.CounterpartyPort {
+		portClass = "other source port"
+	}
+	if outO.Success {
+		rec.Label("accepted-over", portClass)
+	}
 	if !outO.Success {
 		rec.Label("orbiter", "refused")
 		if oneHop {
@@ -178,6 +185,11 @@ func TestC16Differential(t *testing.T) {
 		}
 	})
 	rec.Require("orbiter", "accepted", 30)
+	// non-vacuity per class of channel: genuine one-hop returns are accepted both over the usual
+	// counterparty port and over other port names (a run in which a whole class is never
+	// accepted decides nothing about that class: exit 2)
+	rec.Require("accepted-over", "source port transfer", 20)
+	rec.Require("accepted-over", "other source port", 3)
 	rec.Require("ics20", "mint", 20)
 	rec.Require("ics20", "release", 50)
 }
